@@ -44,9 +44,24 @@ META = {
     'design_ref': 'DESIGN.md section 5, C16',
 }
 
-# Cases in which the UNCHANGED tree violates the property (reported as monitor violations with these signatures;
-# the lead decides between a fix and a known finding).  Empty: none found.
-SUSPECTED_DEFECTS = []
+# Cases in which the UNCHANGED tree violates the property as worded (reported as monitor violations with exactly these
+# signatures; the lead decides between a fix and a known finding).  All three are one behaviour: layers that run
+# before routing/authorisation (the microversion middleware, PlacementHandler.__call__'s content-length test) answer
+# 400 to every authenticated caller, so a caller without the required role gets 400 instead of 403, and 400 is not
+# among the codes the property allows in place of 403 (404, 405, 406, 415).  Nothing is stored, shown or queried.
+SUSPECTED_DEFECTS = [
+    '400-before-authorisation:content-length-without-content-type',
+    '400-before-authorisation:content-length-not-an-integer',
+    '400-before-authorisation:malformed-microversion-header',
+]
+FRAMING = [
+    ('framing:content-length-without-content-type', 'POST', '/resource_providers',
+     {'raw_body': b'{"name": "x"}', 'content_type': None}, 400),
+    ('framing:content-length-not-an-integer', 'POST', '/resource_providers',
+     {'raw_body': b'{"name": "x"}', 'headers': {'Content-Length': 'abc'}}, 400),
+    ('framing:malformed-microversion-header', 'GET', '/resource_providers',
+     {'version': None, 'headers': {'OpenStack-API-Version': 'placement abc'}}, 400),
+]
 
 OWN, OTHER = 'projA', 'projB'
 RP1 = '11111111-1111-4111-8111-111111111111'
@@ -215,6 +230,7 @@ def gate_requests():
                             if a.startswith('status_code='):
                                 code = int(a.split('=')[1])
                         out.append(('%d-by-version %s %s' % (code, m, path), m, full, {'body': body, 'version': '1.0'}, code))
+    out.extend(FRAMING)
     out.append(('404 unknown path', 'GET', '/no_such_collection', {}, 404))
     out.append(('404 unknown subpath', 'GET', '/resource_providers/%s/no_such' % RP1, {}, 404))
     return out
@@ -317,8 +333,9 @@ def _one(method, full_path, kw, caller):
     app.restore(_W['snap'])
     del log[:]
     cname, token, hdrs = caller[0], caller[1], caller[2]
-    args = dict(version=VERSION, token=token, headers=dict(hdrs), roles=None)   # identity only from the caller's own headers
+    args = dict(version=VERSION, token=token, roles=None)   # identity only from the caller's own headers
     args.update(kw)
+    args['headers'] = dict(kw.get('headers') or {}, **hdrs)
     body = args.pop('body', None)
     r = app.call(method, full_path, body, **args)
     nsql = len(log)
@@ -640,12 +657,21 @@ def _check_gates(chk, vio, gates, cl, res):
             chk._distinct.add(('gate', label, c[0], status))
             chk.tally('by_status', str(status))
             kwj = {k: (v.decode() if isinstance(v, bytes) else v) for k, v in kw.items()}
-            rp = mk_replay(('default', None, None), method, path, kwj.get('body'), c, expect,
+            rp = mk_replay(('default', None, None), method, path, kwj.get('body'), c,
+                           '403, or the same 404/405/406/415 for every caller' if label.startswith('framing:') else expect,
                            {'status': status, 'sql_statements': nsql, 'first_sql': first_sql, 'dump_changed': changed},
                            {'call_kwargs': kwj})
             if c[1] is None:
                 if status != 401:
                     vio('monitor', 'no-token', 'no-token-not-401:gate %s' % label, 'request without credentials answered %s' % status, rp)
+            elif label.startswith('framing:'):
+                admitted = text_oracle(('default', None, None), (path, method), c, {})
+                if not admitted and status != 403 and status not in (404, 405, 406, 415):
+                    sig = '%s-before-authorisation:%s' % (status, label.split(':', 1)[1])
+                    vio('monitor', 'framing', sig,
+                        'caller %s is not admitted to %s %s but the answer is %s, not 403 (%s)'
+                        % (c[0], method, path, status,
+                           'listed in SUSPECTED_DEFECTS: behaviour of the unchanged tree' if sig in SUSPECTED_DEFECTS else 'new'), rp)
             else:
                 # either refused as unauthorised, or rejected like for everybody else
                 if not (status == 403 or (status in (404, 405, 406, 415) and auth_status <= {status, 403})):
